@@ -8,7 +8,7 @@ use ckb_types::{
         BlockBuilder, BlockView, Capacity, EpochNumberWithFraction, HeaderBuilder, ScriptHashType,
         TransactionBuilder, TransactionView,
     },
-    packed::{self, CellInput, CellOutputBuilder, OutPoint, Script, ScriptBuilder},
+    packed::{self, CellDep, CellInput, CellOutputBuilder, OutPoint, ProposalShortId, Script, ScriptBuilder},
     prelude::*,
 };
 use serde::{Deserialize, Serialize};
@@ -85,9 +85,24 @@ pub struct InSel {
 #[derive(Clone, Debug, Serialize, Deserialize)]
 #[serde(tag = "t")]
 pub enum TxItem {
-    New { inputs: Vec<InSel>, outputs: Vec<OutSpec> },
+    New {
+        inputs: Vec<InSel>,
+        outputs: Vec<OutSpec>,
+        /// cell deps: selectors into the cells live before this transaction (rich-indexer scenarios)
+        #[serde(default, skip_serializing_if = "Vec::is_empty")]
+        cell_deps: Vec<u32>,
+        /// header deps: selectors into the ancestors of this block (rich-indexer scenarios)
+        #[serde(default, skip_serializing_if = "Vec::is_empty")]
+        header_deps: Vec<u32>,
+    },
     /// include a transaction that already sits in a block outside this chain, if its inputs are live here
     Reuse { k: u32 },
+}
+#[derive(Clone, Debug, Serialize, Deserialize)]
+pub struct UncleSpec {
+    pub salt: u64,
+    #[serde(default)]
+    pub proposals: Vec<u64>,
 }
 #[derive(Clone, Debug, Serialize, Deserialize)]
 pub struct BlockSpec {
@@ -96,6 +111,17 @@ pub struct BlockSpec {
     pub copy_cellbase: bool,
     pub cellbase: Vec<OutSpec>,
     pub txs: Vec<TxItem>,
+    /// uncle blocks (header + proposals) carried by the block (rich-indexer scenarios)
+    #[serde(default, skip_serializing_if = "Vec::is_empty")]
+    pub uncles: Vec<UncleSpec>,
+    /// proposal short ids of the block (rich-indexer scenarios)
+    #[serde(default, skip_serializing_if = "Vec::is_empty")]
+    pub proposals: Vec<u64>,
+}
+
+fn short_id(x: u64) -> ProposalShortId {
+    let b = x.to_le_bytes();
+    ProposalShortId::new([b[0], b[1], b[2], b[3], b[4], b[5], b[6], b[7], 0x5a, 0xa5])
 }
 
 #[derive(Clone, Debug)]
@@ -104,7 +130,7 @@ pub struct MCell {
     pub index: u32,
     /// packed CellOutput bytes
     pub output: Vec<u8>,
-    pub data: Vec<u8>,
+    pub data: Rc<Vec<u8>>,
     pub cap: u64,
     pub bn: u64,
     pub ti: u32,
@@ -123,6 +149,9 @@ pub struct MRow {
     /// 0 input, 1 output
     pub io_type: u8,
     pub tx_hash: H32,
+    /// data and capacity of the cell the row is about (the rich-indexer filters transactions by them)
+    pub data: Rc<Vec<u8>>,
+    pub cap: u64,
 }
 #[derive(Clone, Default)]
 pub struct MState {
@@ -141,6 +170,8 @@ fn push_rows(st: &mut MState, c: &MCell, bn: u64, ti: u32, io_index: u32, io_typ
         io_index,
         io_type,
         tx_hash,
+        data: c.data.clone(),
+        cap: c.cap,
     });
     if let Some(t) = &c.typ {
         st.rows.push(MRow {
@@ -152,6 +183,8 @@ fn push_rows(st: &mut MState, c: &MCell, bn: u64, ti: u32, io_index: u32, io_typ
             io_index,
             io_type,
             tx_hash,
+            data: c.data.clone(),
+            cap: c.cap,
         });
     }
 }
@@ -179,7 +212,7 @@ pub fn apply_tx(st: &mut MState, tx: &TransactionView, bn: u64, ti: u32) -> Resu
             tx_hash,
             index: oi as u32,
             output: output.as_slice().to_vec(),
-            data,
+            data: Rc::new(data),
             cap: cap.as_u64(),
             bn,
             ti,
@@ -291,7 +324,7 @@ impl World {
         for item in &spec.txs {
             let ti = txs.len() as u32;
             match item {
-                TxItem::New { inputs, outputs } => {
+                TxItem::New { inputs, outputs, cell_deps, header_deps } => {
                     let mut cands: Vec<((H32, u32), u64, u32)> = st.live.iter().map(|(k, c)| (*k, c.bn, c.ti)).collect();
                     cands.sort_by_key(|(k, bn, ti)| (*bn, *ti, k.1, k.0));
                     let mut picked: Vec<(H32, u32)> = Vec::new();
@@ -313,6 +346,18 @@ impl World {
                         continue;
                     }
                     let mut tb = TransactionBuilder::default();
+                    for d in cell_deps {
+                        let (k, _, _) = cands[*d as usize % cands.len()];
+                        tb = tb.cell_dep(CellDep::new_builder().out_point(OutPoint::new(packed::Byte32::from_slice(&k.0).unwrap(), k.1)).build());
+                        probes.inc("tx_with_cell_dep");
+                    }
+                    if let Some(p) = parent {
+                        let anc = self.chain_of(p);
+                        for d in header_deps {
+                            tb = tb.header_dep(self.blocks[anc[*d as usize % anc.len()]].view.hash());
+                            probes.inc("tx_with_header_dep");
+                        }
+                    }
                     for (h, i) in &picked {
                         tb = tb.input(CellInput::new(OutPoint::new(packed::Byte32::from_slice(h).unwrap(), *i), 0));
                     }
@@ -369,7 +414,27 @@ impl World {
             .timestamp(1_600_000_000_000u64 + number * 8_000)
             .nonce(spec.salt as u128)
             .build();
-        let view = BlockBuilder::default().header(header).transactions(txs).build();
+        let mut bb = BlockBuilder::default().header(header).transactions(txs);
+        for p in &spec.proposals {
+            bb = bb.proposal(short_id(*p));
+        }
+        for u in &spec.uncles {
+            let un = number.saturating_sub(1);
+            let uh = HeaderBuilder::default()
+                .number(un)
+                .parent_hash(packed::Byte32::from_slice(&[0xee; 32]).unwrap())
+                .epoch(EpochNumberWithFraction::new(un / 1000, un % 1000, 1000))
+                .timestamp(1_600_000_000_001u64 + un * 8_000)
+                .nonce((u.salt as u128) | (1u128 << 100))
+                .build();
+            let mut ub = BlockBuilder::default().header(uh);
+            for p in &u.proposals {
+                ub = ub.proposal(short_id(*p));
+            }
+            bb = bb.uncle(ub.build().as_uncle());
+            probes.inc("block_with_uncle");
+        }
+        let view = bb.build();
         let hash = h32(&view.hash());
         if self.blocks.iter().any(|b| b.hash == hash) {
             return Err(format!("model: duplicate block hash at number {number}"));
